@@ -96,7 +96,7 @@ func H10_seq() {
 	saved := ValidateDocFields
 	defer func() { ValidateDocFields = saved }()
 	buildB := func(tag string) {
-		docs, sp := vGenBatch(gCfg{prefix: "b" + tag, idBase: "b", nDocs: vChoice("bDocs", 1+vParam("bMax", 2)), wide: -1, noFx: true,
+		docs, sp := vGenBatch(gCfg{prefix: "b", idBase: "b", nDocs: vChoice("bDocs", 1+vParam("bMax", 2)), wide: -1, noFx: true,
 			fields: []gField{
 				{name: "f", terms: []string{"a"}, tv: true, maxLocs: 1, store: true},
 				{name: "g", terms: []string{"c"}},
